@@ -11,35 +11,35 @@ Open Scope Z_scope.
 Fixpoint ok (t : tree) : Prop :=
   match t with
   | Leaf => True
-  | Node l lo hi mx h r =>
+  | Node l lo hi tg mx h r =>
       ok l /\ ok r /\ h = 1 + Z.max (height l) (height r)
       /\ -1 <= height l - height r <= 1 /\ mx = upd_max l hi r
   end.
 
 Lemma ok_height_nonneg t : ok t -> 0 <= height t.
 Proof.
-  induction t as [|l IHl lo hi mx h r IHr]; cbn [ok height]; [lia|].
+  induction t as [|l IHl lo hi tg mx h r IHr]; cbn [ok height]; [lia|].
   intros (Hl & Hr & Hh & _). specialize (IHl Hl). specialize (IHr Hr). lia.
 Qed.
 
-Lemma ok_node_pos l lo hi mx h r : ok (Node l lo hi mx h r) -> 1 <= h.
+Lemma ok_node_pos l lo hi tg mx h r : ok (Node l lo hi tg mx h r) -> 1 <= h.
 Proof.
   cbn [ok]. intros (Hl & Hr & Hh & _).
   pose proof (ok_height_nonneg _ Hl). pose proof (ok_height_nonneg _ Hr). lia.
 Qed.
 
-Lemma height_mk l lo hi r : height (mk l lo hi r) = 1 + Z.max (height l) (height r).
+Lemma height_mk l lo hi tg r : height (mk l lo hi tg r) = 1 + Z.max (height l) (height r).
 Proof. reflexivity. Qed.
 
-Lemma ok_mk l lo hi r :
-  ok l -> ok r -> -1 <= height l - height r <= 1 -> ok (mk l lo hi r).
+Lemma ok_mk l lo hi tg r :
+  ok l -> ok r -> -1 <= height l - height r <= 1 -> ok (mk l lo hi tg r).
 Proof. intros Hl Hr Hb. unfold mk. cbn [ok]. repeat split; auto; lia. Qed.
 
 (* a tree of height 0 is a leaf; a tree of positive height is a node *)
 Lemma ok_height0 t : ok t -> height t <= 0 -> t = Leaf.
 Proof.
-  destruct t as [|l lo hi mx h r]; [reflexivity|]. intros Hok Hh.
-  pose proof (ok_node_pos _ _ _ _ _ _ Hok). cbn [height] in Hh. lia.
+  destruct t as [|l lo hi tg mx h r]; [reflexivity|]. intros Hok Hh.
+  pose proof (ok_node_pos _ _ _ _ _ _ _ Hok). cbn [height] in Hh. lia.
 Qed.
 
 (* ---- rebalancing (deleteNode's tail; insertNode's tail is shown to coincide with it) ---- *)
@@ -53,7 +53,7 @@ Definition rebal_post (l r res : tree) : Prop :=
 
 Ltac solve_ok :=
   repeat match goal with
-         | |- ok (mk _ _ _ _) => apply ok_mk
+         | |- ok (mk _ _ _ _ _) => apply ok_mk
          | |- ok _ => assumption
          end; rewrite ?height_mk; cbn [height]; lia.
 
@@ -66,83 +66,83 @@ Ltac okpos :=
       end
   end.
 
-Lemma bf_mk l lo hi r : balance_factor (mk l lo hi r) = height l - height r.
+Lemma bf_mk l lo hi tg r : balance_factor (mk l lo hi tg r) = height l - height r.
 Proof. reflexivity. Qed.
-Lemma left_mk l lo hi r : left (mk l lo hi r) = l.
+Lemma left_mk l lo hi tg r : left (mk l lo hi tg r) = l.
 Proof. reflexivity. Qed.
-Lemma right_mk l lo hi r : right (mk l lo hi r) = r.
+Lemma right_mk l lo hi tg r : right (mk l lo hi tg r) = r.
 Proof. reflexivity. Qed.
-Lemma rr_mk ll llo lhi lm lh lr lo hi r :
-  rotate_right (mk (Node ll llo lhi lm lh lr) lo hi r) = mk ll llo lhi (mk lr lo hi r)
-  /\ rotate_right_chk (mk (Node ll llo lhi lm lh lr) lo hi r) = Some (mk ll llo lhi (mk lr lo hi r)).
+Lemma rr_mk ll llo lhi ltg lm lh lr lo hi tg r :
+  rotate_right (mk (Node ll llo lhi ltg lm lh lr) lo hi tg r) = mk ll llo lhi ltg (mk lr lo hi tg r)
+  /\ rotate_right_chk (mk (Node ll llo lhi ltg lm lh lr) lo hi tg r) = Some (mk ll llo lhi ltg (mk lr lo hi tg r)).
 Proof. split; reflexivity. Qed.
-Lemma rl_mk l lo hi rl rlo rhi rm rh rr :
-  rotate_left (mk l lo hi (Node rl rlo rhi rm rh rr)) = mk (mk l lo hi rl) rlo rhi rr
-  /\ rotate_left_chk (mk l lo hi (Node rl rlo rhi rm rh rr)) = Some (mk (mk l lo hi rl) rlo rhi rr).
+Lemma rl_mk l lo hi tg rl rlo rhi rtg rm rh rr :
+  rotate_left (mk l lo hi tg (Node rl rlo rhi rtg rm rh rr)) = mk (mk l lo hi tg rl) rlo rhi rtg rr
+  /\ rotate_left_chk (mk l lo hi tg (Node rl rlo rhi rtg rm rh rr)) = Some (mk (mk l lo hi tg rl) rlo rhi rtg rr).
 Proof. split; reflexivity. Qed.
-Lemma rlr_mk ll llo lhi lm lh lrl lrlo lrhi lrm lrh lrr lo hi r :
-  let l := Node ll llo lhi lm lh (Node lrl lrlo lrhi lrm lrh lrr) in
-  let res := mk (mk ll llo lhi lrl) lrlo lrhi (mk lrr lo hi r) in
-  rotate_right (set_left (mk l lo hi r) (rotate_left l)) = res
-  /\ bind (rotate_left_chk l) (fun l' => rotate_right_chk (set_left (mk l lo hi r) l')) = Some res.
+Lemma rlr_mk ll llo lhi ltg lm lh lrl lrlo lrhi lrtg lrm lrh lrr lo hi tg r :
+  let l := Node ll llo lhi ltg lm lh (Node lrl lrlo lrhi lrtg lrm lrh lrr) in
+  let res := mk (mk ll llo lhi ltg lrl) lrlo lrhi lrtg (mk lrr lo hi tg r) in
+  rotate_right (set_left (mk l lo hi tg r) (rotate_left l)) = res
+  /\ bind (rotate_left_chk l) (fun l' => rotate_right_chk (set_left (mk l lo hi tg r) l')) = Some res.
 Proof. split; reflexivity. Qed.
-Lemma rrl_mk l lo hi rll rllo rlhi rlm rlh rlr rlo rhi rm rh rr :
-  let r := Node (Node rll rllo rlhi rlm rlh rlr) rlo rhi rm rh rr in
-  let res := mk (mk l lo hi rll) rllo rlhi (mk rlr rlo rhi rr) in
-  rotate_left (set_right (mk l lo hi r) (rotate_right r)) = res
-  /\ bind (rotate_right_chk r) (fun r' => rotate_left_chk (set_right (mk l lo hi r) r')) = Some res.
+Lemma rrl_mk l lo hi tg rll rllo rlhi rltg rlm rlh rlr rlo rhi rtg rm rh rr :
+  let r := Node (Node rll rllo rlhi rltg rlm rlh rlr) rlo rhi rtg rm rh rr in
+  let res := mk (mk l lo hi tg rll) rllo rlhi rltg (mk rlr rlo rhi rtg rr) in
+  rotate_left (set_right (mk l lo hi tg r) (rotate_right r)) = res
+  /\ bind (rotate_right_chk r) (fun r' => rotate_left_chk (set_right (mk l lo hi tg r) r')) = Some res.
 Proof. split; reflexivity. Qed.
 
-Lemma rebal_ok l lo hi r :
+Lemma rebal_ok l lo hi tg r :
   ok l -> ok r -> -2 <= height l - height r <= 2 ->
-  rebal_post l r (rebalance_del (mk l lo hi r))
-  /\ rebalance_del_chk (mk l lo hi r) = Some (rebalance_del (mk l lo hi r)).
+  rebal_post l r (rebalance_del (mk l lo hi tg r))
+  /\ rebalance_del_chk (mk l lo hi tg r) = Some (rebalance_del (mk l lo hi tg r)).
 Proof.
   intros Hl Hr Hd. unfold rebalance_del, rebalance_del_chk, rebal_post.
   rewrite !bf_mk, !left_mk, !right_mk.
   destruct (Z.gtb_spec (height l - height r) 1) as [Hgt|Hgt].
   - (* left heavy *)
-    destruct l as [|ll llo lhi lm lh lr].
+    destruct l as [|ll llo lhi ltg lm lh lr].
     { okpos. cbn [height] in *. lia. }
     pose proof Hl as (Hll & Hlr & Hlh & Hlb & Hlm). fold ok in Hll, Hlr.
     cbn [balance_factor].
     destruct (Z.ltb_spec (height ll - height lr) 0) as [Hlt|Hlt].
     + (* left-right: double rotation *)
-      destruct lr as [|lrl lrlo lrhi lrm lrh lrr].
+      destruct lr as [|lrl lrlo lrhi lrtg lrm lrh lrr].
       { okpos. cbn [height] in *. lia. }
       pose proof Hlr as (Hlrl & Hlrr & Hlrh & Hlrb & Hlrm). fold ok in Hlrl, Hlrr.
-      destruct (rlr_mk ll llo lhi lm lh lrl lrlo lrhi lrm lrh lrr lo hi r) as [E1 E2].
+      destruct (rlr_mk ll llo lhi ltg lm lh lrl lrlo lrhi lrtg lrm lrh lrr lo hi tg r) as [E1 E2].
       cbv zeta in E1, E2. rewrite E1, E2. clear E1 E2 Hl Hlr.
       split; [|reflexivity]. okpos. cbn [height] in *.
       split; [solve_ok|]; rewrite ?height_mk; cbn [height balance_factor]; lia.
     + (* left-left: single rotation *)
-      destruct (rr_mk ll llo lhi lm lh lr lo hi r) as [E1 E2]. rewrite E1, E2. clear E1 E2 Hl.
+      destruct (rr_mk ll llo lhi ltg lm lh lr lo hi tg r) as [E1 E2]. rewrite E1, E2. clear E1 E2 Hl.
       split; [|reflexivity]. okpos. cbn [height] in *.
       split; [solve_ok|]; rewrite ?height_mk; cbn [height balance_factor]; lia.
   - destruct (Z.ltb_spec (height l - height r) (-1)) as [Hlt|Hlt].
     + (* right heavy *)
-      destruct r as [|rl rlo rhi rm rh rr].
+      destruct r as [|rl rlo rhi rtg rm rh rr].
       { okpos. cbn [height] in *. lia. }
       pose proof Hr as (Hrl & Hrr & Hrh & Hrb & Hrm). fold ok in Hrl, Hrr.
       cbn [balance_factor].
       destruct (Z.gtb_spec (height rl - height rr) 0) as [Hg0|Hg0].
       * (* right-left: double rotation *)
-        destruct rl as [|rll rllo rlhi rlm rlh rlr].
+        destruct rl as [|rll rllo rlhi rltg rlm rlh rlr].
         { okpos. cbn [height] in *. lia. }
         pose proof Hrl as (Hrll & Hrlr & Hrlh & Hrlb & Hrlm). fold ok in Hrll, Hrlr.
-        destruct (rrl_mk l lo hi rll rllo rlhi rlm rlh rlr rlo rhi rm rh rr) as [E1 E2].
+        destruct (rrl_mk l lo hi tg rll rllo rlhi rltg rlm rlh rlr rlo rhi rtg rm rh rr) as [E1 E2].
         cbv zeta in E1, E2. rewrite E1, E2. clear E1 E2 Hr Hrl.
         split; [|reflexivity]. okpos. cbn [height] in *.
         split; [solve_ok|]; rewrite ?height_mk; cbn [height balance_factor]; lia.
-      * destruct (rl_mk l lo hi rl rlo rhi rm rh rr) as [E1 E2]. rewrite E1, E2. clear E1 E2 Hr.
+      * destruct (rl_mk l lo hi tg rl rlo rhi rtg rm rh rr) as [E1 E2]. rewrite E1, E2. clear E1 E2 Hr.
         split; [|reflexivity]. okpos. cbn [height] in *.
         split; [solve_ok|]; rewrite ?height_mk; cbn [height balance_factor]; lia.
     + split; [|reflexivity]. okpos.
       split; [solve_ok|]; rewrite ?height_mk; lia.
 Qed.
 
-Lemma rebal_id l lo hi r :
-  -1 <= height l - height r <= 1 -> rebalance_del (mk l lo hi r) = mk l lo hi r.
+Lemma rebal_id l lo hi tg r :
+  -1 <= height l - height r <= 1 -> rebalance_del (mk l lo hi tg r) = mk l lo hi tg r.
 Proof.
   intros Hb. unfold rebalance_del. rewrite !bf_mk.
   destruct (Z.gtb_spec (height l - height r) 1); [lia|].
@@ -156,30 +156,30 @@ Qed.
 Definition grown (xlo xhi : Z) (t : tree) : Prop :=
   match t with
   | Leaf => False
-  | Node l klo khi _ h r =>
+  | Node l klo khi ktg _ h r =>
       h = 1 \/ (if less xlo xhi klo khi then height l = height r + 1
                 else height r = height l + 1)
   end.
 
 (* on such shapes insertNode's choice of rotation by key comparison is deleteNode's choice by
    balance factor *)
-Lemma rebal_ins_eq xlo xhi l lo hi r :
+Lemma rebal_ins_eq xlo xhi l lo hi tg r :
   ok l -> ok r ->
   (1 < height l - height r -> grown xlo xhi l) ->
   (height l - height r < -1 -> grown xlo xhi r) ->
-  rebalance_ins xlo xhi (mk l lo hi r) = rebalance_del (mk l lo hi r)
-  /\ rebalance_ins_chk xlo xhi (mk l lo hi r) = rebalance_del_chk (mk l lo hi r).
+  rebalance_ins xlo xhi (mk l lo hi tg r) = rebalance_del (mk l lo hi tg r)
+  /\ rebalance_ins_chk xlo xhi (mk l lo hi tg r) = rebalance_del_chk (mk l lo hi tg r).
 Proof.
   intros Hl Hr Gl Gr.
   unfold rebalance_ins, rebalance_del, rebalance_ins_chk, rebalance_del_chk.
   rewrite !bf_mk, !left_mk, !right_mk.
   destruct (Z.gtb_spec (height l - height r) 1) as [Hgt|Hgt].
-  - specialize (Gl Hgt). destruct l as [|ll llo lhi lm lh lr]; [destruct Gl|].
+  - specialize (Gl Hgt). destruct l as [|ll llo lhi ltg lm lh lr]; [destruct Gl|].
     cbn [grown] in Gl. cbn [balance_factor]. okpos. cbn [height] in *.
     destruct (less xlo xhi llo lhi); cbn [negb];
       destruct (Z.ltb_spec (height ll - height lr) 0); try (split; reflexivity); lia.
   - destruct (Z.ltb_spec (height l - height r) (-1)) as [Hlt|Hlt]; [|split; reflexivity].
-    specialize (Gr Hlt). destruct r as [|rl rlo rhi rm rh rr]; [destruct Gr|].
+    specialize (Gr Hlt). destruct r as [|rl rlo rhi rtg rm rh rr]; [destruct Gr|].
     cbn [grown] in Gr. cbn [balance_factor]. okpos. cbn [height] in *.
     destruct (less xlo xhi rlo rhi);
       destruct (Z.gtb_spec (height rl - height rr) 0); try (split; reflexivity); lia.
@@ -187,31 +187,31 @@ Qed.
 
 Lemma grown_bf xlo xhi t : ok t -> grown xlo xhi t -> height t = 1 \/ balance_factor t <> 0.
 Proof.
-  destruct t as [|l klo khi m h r]; cbn [grown]; [tauto|].
+  destruct t as [|l klo khi ktg m h r]; cbn [grown]; [tauto|].
   intros _ [H1|H]; [left; exact H1|right]. cbn [balance_factor].
   destruct (less xlo xhi klo khi); lia.
 Qed.
 
-Lemma ins_ok xlo xhi t :
+Lemma ins_ok xlo xhi xtg t :
   ok t ->
-  ok (ins xlo xhi t)
-  /\ ins_chk xlo xhi t = Some (ins xlo xhi t)
-  /\ (height (ins xlo xhi t) = height t
-      \/ (height (ins xlo xhi t) = height t + 1 /\ grown xlo xhi (ins xlo xhi t))).
+  ok (ins xlo xhi xtg t)
+  /\ ins_chk xlo xhi xtg t = Some (ins xlo xhi xtg t)
+  /\ (height (ins xlo xhi xtg t) = height t
+      \/ (height (ins xlo xhi xtg t) = height t + 1 /\ grown xlo xhi (ins xlo xhi xtg t))).
 Proof.
-  induction t as [|l IHl lo hi mx h r IHr]; intros Hok.
+  induction t as [|l IHl lo hi tg mx h r IHr]; intros Hok.
   - cbn [ins ins_chk ok height grown upd_max]. repeat split; auto; try lia.
   - destruct Hok as (Hl & Hr & Hh & Hb & Hm). fold ok in Hl, Hr.
     specialize (IHl Hl). specialize (IHr Hr). cbn [ins ins_chk height].
     destruct (less xlo xhi lo hi) eqn:Hless.
     + destruct IHl as (Hl' & Cl & Hhl). rewrite Cl. cbn [bind].
-      set (l' := ins xlo xhi l) in *.
+      set (l' := ins xlo xhi xtg l) in *.
       assert (Hd : -2 <= height l' - height r <= 2) by lia.
       assert (G1 : 1 < height l' - height r -> grown xlo xhi l').
       { intros ?. destruct Hhl as [?|[_ G]]; [lia|exact G]. }
       assert (G2 : height l' - height r < -1 -> grown xlo xhi r) by (intros ?; lia).
-      destruct (rebal_ins_eq xlo xhi l' lo hi r Hl' Hr G1 G2) as [E1 E2]. rewrite E1, E2.
-      destruct (rebal_ok l' lo hi r Hl' Hr Hd) as [(Ho & Hrange & Hin & Hp2 & Hm2) Hc].
+      destruct (rebal_ins_eq xlo xhi l' lo hi tg r Hl' Hr G1 G2) as [E1 E2]. rewrite E1, E2.
+      destruct (rebal_ok l' lo hi tg r Hl' Hr Hd) as [(Ho & Hrange & Hin & Hp2 & Hm2) Hc].
       split; [exact Ho|]. split; [exact Hc|].
       destruct Hhl as [Heq|[Hgr G]].
       * left. lia.
@@ -222,13 +222,13 @@ Proof.
         -- left. pose proof (grown_bf _ _ _ Hl' G) as [H1|Hbf]; [okpos; lia|].
            rewrite Hp2 by (auto; lia). lia.
     + destruct IHr as (Hr' & Cr & Hhr). rewrite Cr. cbn [bind].
-      set (r' := ins xlo xhi r) in *.
+      set (r' := ins xlo xhi xtg r) in *.
       assert (Hd : -2 <= height l - height r' <= 2) by lia.
       assert (G1 : 1 < height l - height r' -> grown xlo xhi l) by (intros ?; lia).
       assert (G2 : height l - height r' < -1 -> grown xlo xhi r').
       { intros ?. destruct Hhr as [?|[_ G]]; [lia|exact G]. }
-      destruct (rebal_ins_eq xlo xhi l lo hi r' Hl Hr' G1 G2) as [E1 E2]. rewrite E1, E2.
-      destruct (rebal_ok l lo hi r' Hl Hr' Hd) as [(Ho & Hrange & Hin & Hp2 & Hm2) Hc].
+      destruct (rebal_ins_eq xlo xhi l lo hi tg r' Hl Hr' G1 G2) as [E1 E2]. rewrite E1, E2.
+      destruct (rebal_ok l lo hi tg r' Hl Hr' Hd) as [(Ho & Hrange & Hin & Hp2 & Hm2) Hc].
       split; [exact Ho|]. split; [exact Hc|].
       destruct Hhr as [Heq|[Hgr G]].
       * left. lia.
@@ -242,19 +242,45 @@ Qed.
 
 (* ---- deletion ---- *)
 
-Lemma del_step_ok l lo hi r (k : Z) :
+Lemma del_step_ok l lo hi tg r (k : Z) :
   ok l -> ok r -> -2 <= height l - height r <= 2 ->
-  ok (rebalance_del (mk l lo hi r))
-  /\ bind (rebalance_del_chk (mk l lo hi r)) (fun t' => Some (t', k))
-     = Some (rebalance_del (mk l lo hi r), k)
-  /\ Z.max (height l) (height r) <= height (rebalance_del (mk l lo hi r))
+  ok (rebalance_del (mk l lo hi tg r))
+  /\ bind (rebalance_del_chk (mk l lo hi tg r)) (fun t' => Some (t', k))
+     = Some (rebalance_del (mk l lo hi tg r), k)
+  /\ Z.max (height l) (height r) <= height (rebalance_del (mk l lo hi tg r))
        <= 1 + Z.max (height l) (height r)
   /\ (-1 <= height l - height r <= 1 ->
-      height (rebalance_del (mk l lo hi r)) = 1 + Z.max (height l) (height r)).
+      height (rebalance_del (mk l lo hi tg r)) = 1 + Z.max (height l) (height r)).
 Proof.
   intros Hl Hr Hd.
-  destruct (rebal_ok l lo hi r Hl Hr Hd) as [(Ho & Hrange & Hin & _ & _) Hc].
+  destruct (rebal_ok l lo hi tg r Hl Hr Hd) as [(Ho & Hrange & Hin & _ & _) Hc].
   rewrite Hc. cbn [bind]. auto.
+Qed.
+
+Lemma remove_min_node ll llo lhi ltg lm lh lr lo hi tg m h r :
+  remove_min (Node (Node ll llo lhi ltg lm lh lr) lo hi tg m h r)
+  = (let '(l', k) := remove_min (Node ll llo lhi ltg lm lh lr) in (rebalance_del (mk l' lo hi tg r), k))
+  /\ remove_min_chk (Node (Node ll llo lhi ltg lm lh lr) lo hi tg m h r)
+    = bind (remove_min_chk (Node ll llo lhi ltg lm lh lr)) (fun '(l', k) =>
+        bind (rebalance_del_chk (mk l' lo hi tg r)) (fun t' => Some (t', k))).
+Proof. split; reflexivity. Qed.
+
+Lemma remove_min_ok t :
+  ok t -> t <> Leaf ->
+  ok (fst (remove_min t))
+  /\ remove_min_chk t = Some (remove_min t)
+  /\ height t - 1 <= height (fst (remove_min t)) <= height t.
+Proof.
+  induction t as [|l IHl lo hi tg mx h r _]; intros Hok Hne; [congruence|].
+  pose proof Hok as (Hl & Hr & Hh & Hb & Hm). fold ok in Hl, Hr.
+  destruct l as [|ll llo lhi ltg lm lh lr].
+  - cbn [remove_min remove_min_chk fst]. okpos. cbn [height] in *.
+    split; [exact Hr|split; [reflexivity|lia]].
+  - destruct (remove_min_node ll llo lhi ltg lm lh lr lo hi tg mx h r) as [E1 E2]. rewrite E1, E2.
+    destruct (IHl Hl ltac:(discriminate)) as (Hl' & Cl & Hhl). rewrite Cl.
+    destruct (remove_min (Node ll llo lhi ltg lm lh lr)) as [l' k]. cbn [fst bind height] in *.
+    destruct (del_step_ok l' lo hi tg r k Hl' Hr ltac:(lia)) as (Ho & Hc & Hrange & Hin).
+    rewrite Hc. repeat split; auto; lia.
 Qed.
 
 Lemma del_ok t : forall dlo dhi,
@@ -263,28 +289,28 @@ Lemma del_ok t : forall dlo dhi,
   /\ del_chk t dlo dhi = Some (del t dlo dhi)
   /\ height t - 1 <= height (fst (del t dlo dhi)) <= height t.
 Proof.
-  induction t as [|l IHl lo hi mx h r IHr]; intros dlo dhi Hok.
+  induction t as [|l IHl lo hi tg mx h r IHr]; intros dlo dhi Hok.
   - cbn [del del_chk fst ok height]. repeat split; auto; lia.
   - pose proof Hok as (Hl & Hr & Hh & Hb & Hm). fold ok in Hl, Hr.
     cbn [del del_chk height].
     destruct (less dlo dhi lo hi).
     + destruct (IHl dlo dhi Hl) as (Hl' & Cl & Hhl). rewrite Cl.
       destruct (del l dlo dhi) as [l' k]. cbn [fst bind] in *.
-      destruct (del_step_ok l' lo hi r k Hl' Hr ltac:(lia)) as (Ho & Hc & Hrange & Hin).
+      destruct (del_step_ok l' lo hi tg r k Hl' Hr ltac:(lia)) as (Ho & Hc & Hrange & Hin).
       rewrite Hc. repeat split; auto; lia.
     + destruct (less lo hi dlo dhi).
       * destruct (IHr dlo dhi Hr) as (Hr' & Cr & Hhr). rewrite Cr.
         destruct (del r dlo dhi) as [r' k]. cbn [fst bind] in *.
-        destruct (del_step_ok l lo hi r' k Hl Hr' ltac:(lia)) as (Ho & Hc & Hrange & Hin).
+        destruct (del_step_ok l lo hi tg r' k Hl Hr' ltac:(lia)) as (Ho & Hc & Hrange & Hin).
         rewrite Hc. repeat split; auto; lia.
-      * destruct l as [|ll llo lhi lm lh lr].
+      * destruct l as [|ll llo lhi ltg lm lh lr].
         { okpos. cbn [fst height] in *. split; [exact Hr|split; [reflexivity|lia]]. }
-        destruct r as [|rl rlo rhi rm rh rr].
+        destruct r as [|rl rlo rhi rtg rm rh rr].
         { okpos. cbn [fst height] in *. split; [exact Hl|split; [reflexivity|lia]]. }
-        destruct (find_min rlo rhi rl) as [slo shi].
-        destruct (IHr slo shi Hr) as (Hr' & Cr & Hhr). rewrite Cr.
-        destruct (del (Node rl rlo rhi rm rh rr) slo shi) as [r' k]. cbn [fst bind] in *.
-        destruct (del_step_ok (Node ll llo lhi lm lh lr) slo shi r' k Hl Hr' ltac:(lia))
+        destruct (find_min rlo rhi rtg rl) as [[slo shi] stg].
+        destruct (remove_min_ok _ Hr ltac:(discriminate)) as (Hr' & Cr & Hhr). rewrite Cr.
+        destruct (remove_min (Node rl rlo rhi rtg rm rh rr)) as [r' k]. cbn [fst bind] in *.
+        destruct (del_step_ok (Node ll llo lhi ltg lm lh lr) slo shi stg r' k Hl Hr' ltac:(lia))
           as (Ho & Hc & Hrange & Hin).
         rewrite Hc. repeat split; auto; lia.
 Qed.
@@ -293,33 +319,33 @@ Qed.
 
 Lemma ok_real_height t : ok t -> height t = real_height t.
 Proof.
-  induction t as [|l IHl lo hi mx h r IHr]; cbn [ok height real_height]; [reflexivity|].
+  induction t as [|l IHl lo hi tg mx h r IHr]; cbn [ok height real_height]; [reflexivity|].
   intros (Hl & Hr & Hh & _). rewrite <- IHl, <- IHr by assumption. exact Hh.
 Qed.
 
 Lemma ok_every_height t : ok t -> every_node height_exact_at t.
 Proof.
-  induction t as [|l IHl lo hi mx h r IHr]; cbn [every_node]; [trivial|].
+  induction t as [|l IHl lo hi tg mx h r IHr]; cbn [every_node]; [trivial|].
   intros Hok. pose proof Hok as (Hl & Hr & _). fold ok in Hl, Hr.
   split; [exact (ok_real_height _ Hok)|]. split; auto.
 Qed.
 
 Lemma ok_every_balanced t : ok t -> every_node balanced_at t.
 Proof.
-  induction t as [|l IHl lo hi mx h r IHr]; cbn [every_node]; [trivial|].
+  induction t as [|l IHl lo hi tg mx h r IHr]; cbn [every_node]; [trivial|].
   intros (Hl & Hr & _ & Hb & _). fold ok in Hl, Hr.
   split; [|split; auto]. cbn [balanced_at].
   rewrite <- (ok_real_height l), <- (ok_real_height r) by assumption. exact Hb.
 Qed.
 
 Lemma upd_max_is_max l hi r :
-  (match l with Leaf => True | Node _ _ _ ml _ _ => is_max ml (map snd (inorder l)) end) ->
-  (match r with Leaf => True | Node _ _ _ mr _ _ => is_max mr (map snd (inorder r)) end) ->
+  (match l with Leaf => True | Node _ _ _ _ ml _ _ => is_max ml (map snd (inorder l)) end) ->
+  (match r with Leaf => True | Node _ _ _ _ mr _ _ => is_max mr (map snd (inorder r)) end) ->
   is_max (upd_max l hi r) (map snd (inorder l) ++ hi :: map snd (inorder r)).
 Proof.
   intros Hl Hr. unfold upd_max, is_max in *.
   assert (Hleaf : forall (t : tree), t = Leaf -> map snd (inorder t) = []) by (intros ? ->; reflexivity).
-  destruct l as [|ll llo lhi ml lh lr]; destruct r as [|rl rlo rhi mr rh rr].
+  destruct l as [|ll llo lhi ltg ml lh lr]; destruct r as [|rl rlo rhi rtg mr rh rr].
   - cbn [inorder map app]. split; [left; reflexivity|]. repeat constructor. lia.
   - destruct Hr as [Hin Hall]. cbn [inorder map app] in *.
     destruct (Z.gtb_spec mr hi).
@@ -334,8 +360,8 @@ Proof.
       apply Forall_app. split; [|repeat constructor; lia].
       eapply Forall_impl; [|exact Hall]. cbn beta. intros; lia.
   - destruct Hl as [Hinl Halll]. destruct Hr as [Hinr Hallr].
-    set (L := map snd (inorder (Node ll llo lhi ml lh lr))) in *.
-    set (R := map snd (inorder (Node rl rlo rhi mr rh rr))) in *.
+    set (L := map snd (inorder (Node ll llo lhi ltg ml lh lr))) in *.
+    set (R := map snd (inorder (Node rl rlo rhi rtg mr rh rr))) in *.
     destruct (Z.gtb_spec ml hi) as [H1|H1];
       [destruct (Z.gtb_spec mr ml) as [H2|H2] | destruct (Z.gtb_spec mr hi) as [H2|H2]].
     all: split;
@@ -349,7 +375,7 @@ Qed.
 
 Lemma ok_every_max t : ok t -> every_node max_exact_at t.
 Proof.
-  induction t as [|l IHl lo hi mx h r IHr]; cbn [every_node]; [trivial|].
+  induction t as [|l IHl lo hi tg mx h r IHr]; cbn [every_node]; [trivial|].
   intros (Hl & Hr & _ & _ & Hm). fold ok in Hl, Hr.
   specialize (IHl Hl). specialize (IHr Hr).
   split; [|split; assumption]. cbn [max_exact_at inorder]. rewrite map_app. cbn [map snd].
@@ -359,9 +385,9 @@ Proof.
 Qed.
 
 (* the stored maximum bounds every high end below the node (used by the query pruning) *)
-Lemma ok_max_bound l lo hi mx h r :
-  ok (Node l lo hi mx h r) ->
-  Forall (fun y => snd y <= mx) (inorder (Node l lo hi mx h r)).
+Lemma ok_max_bound l lo hi tg mx h r :
+  ok (Node l lo hi tg mx h r) ->
+  Forall (fun y => snd y <= mx) (inorder (Node l lo hi tg mx h r)).
 Proof.
   intros Hok. pose proof (ok_every_max _ Hok) as [[_ Hall] _].
   rewrite Forall_forall in *. intros y Hy. apply Hall. apply in_map. exact Hy.
